@@ -114,6 +114,54 @@ Definition prepare_children (pg : list (option nat)) (n : nat) : list nat :=
   match nth_error pg n with Some (Some c) => [c] | _ => [] end.
 Definition prepare_endpoint (pg : list (option nat)) fuel vis n := walk (prepare_children pg) fuel vis n.
 
+(* AttributeExpr.Inherit / inheritRecursive (expr/attribute.go:386-396, :731-763), run
+   by Finalize for every Reference: the attributes of [a] that also exist in the
+   referenced [p] inherit its properties, recursively, with a `seen` set of the
+   child-side attributes already expanded. The recursion goes from one expansion unit
+   (att, patt) - a pair of same-named object attributes - to the units two levels
+   below it; the guard is on [att] only. [kwalk] is [walk] with the flag keyed by a
+   projection of the state. *)
+Fixpoint kwalk {X : Type} (key : X -> nat) (children : X -> list X) (fuel : nat) (vis : list nat) (x : X) : option (list nat) :=
+  match fuel with
+  | 0 => None
+  | S f =>
+      if mem (key x) vis then Some vis
+      else fold_left (fun acc c => match acc with None => None | Some v => kwalk key children f v c end)
+                     (children x) (Some (key x :: vis))
+  end.
+
+Definition is_obj_node (g : graph) (n : nat) : bool :=
+  match get g n with Some nd => match n_kind nd with KObj _ => true | _ => false end | None => false end.
+
+Definition node_fields (g : graph) (n : nat) : list (name * nat) :=
+  match get g n with Some nd => obj_fields (n_kind nd) | None => [] end.
+
+(* same-named fields of two object attributes: (field of a, field of p) *)
+Definition matched (g : graph) (a p : nat) : list (nat * nat) :=
+  flat_map (fun f => match assoc (fst f) (node_fields g p) with Some pc => [(snd f, pc)] | None => [] end) (node_fields g a).
+
+(* the units inheritRecursive(a, p) meets: shouldInherit(a, p), then the matched
+   fields whose both sides are objects *)
+Definition inherit_units (g : graph) (a p : nat) : list (nat * nat) :=
+  if is_obj_node g a && is_obj_node g p
+  then filter (fun ap => is_obj_node g (fst ap) && is_obj_node g (snd ap)) (matched g a p)
+  else [].
+
+Definition inherit_children (g : graph) (x : nat * nat) : list (nat * nat) :=
+  flat_map (fun cp => inherit_units g (fst cp) (snd cp)) (matched g (fst x) (snd x)).
+
+Definition inherit_unit (g : graph) fuel seen (x : nat * nat) := kwalk fst (inherit_children g) fuel seen x.
+
+(* a.Inherit(parent): a fresh `seen`, every unit of (a, parent) in turn *)
+Fixpoint kwalk_list {X : Type} (key : X -> nat) (children : X -> list X) (fuel : nat) (vis : list nat) (xs : list X) : option (list nat) :=
+  match xs with
+  | [] => Some vis
+  | x :: r => match kwalk key children fuel vis x with None => None | Some v => kwalk_list key children fuel v r end
+  end.
+
+Definition inherit_attr (g : graph) (fuel : nat) (a p : nat) : option (list nat) :=
+  kwalk_list fst (inherit_children g) fuel [] (inherit_units g a p).
+
 (* AttributeExpr.Find (expr/attribute.go:549-576): the attribute's own type (through
    the user type's attribute, recursively), then each base, then each reference. No
    guard. Some None = not found, None = out of fuel. *)
@@ -218,10 +266,19 @@ Record http := mkH {
   h_errors : list eresponse
 }.
 
+Inductive skind := SBasic | SAPIKey | SJWT | SOAuth2.
+
+Record scheme := mkSc { sc_name : name; sc_kind : skind; sc_scopes : list name }.
+
+(* credential attributes of a payload: Username / Password / APIKey(scheme) / Token /
+   AccessToken (the `security:*` meta tags hasTag looks for, expr/method.go:217-236) *)
+Inductive cred := CUser | CPass | CKey (scheme : name) | CToken | CAccess.
+
 Record req := mkQ { q_schemes : list name; q_scopes : list name }.
 
 Record method := mkM {
   m_payload : shape;
+  m_creds : list cred;
   m_result : result;
   m_errors : list errdef;
   m_reqs : list req;
@@ -235,7 +292,7 @@ Record service := mkS {
   s_methods : list method
 }.
 
-Record scheme := mkSc { sc_name : name; sc_scopes : list name }.
+
 
 Record rtype := mkRT { rt_attrs : list name; rt_views : list view }.
 
@@ -269,6 +326,10 @@ Inductive err :=
 | EView (n : name)             (* type %q does not define view %q *)
 | EViewAttr (n : name)         (* unknown attribute %#v (view DSL) *)
 | ERequired (n : name)         (* required field %q does not exist in type %s *)
+| ENoUsername | ENoPassword | ENoAPIKey | ENoToken | ENoAccessToken
+                               (* payload ... does not define a username | password | API key | JWT | OAuth2 access token attribute *)
+| EStrayUsername | EStrayPassword | EStrayAPIKey | EStrayToken | EStrayAccessToken
+                               (* payload ... defines a ... attribute, but no ... security scheme exist *)
 | EFuel.                       (* a traversal ran out of fuel: never produced within the envelope *)
 
 Definition shape_has (s : shape) (n : name) : bool :=
@@ -352,7 +413,54 @@ Definition scope_known (d : design) (q : req) (sc : name) : bool :=
 
 Definition default_view : name := 0.   (* the harness interns "default" as 0 *)
 
+Definition cred_eqb (a b : cred) : bool :=
+  match a, b with
+  | CUser, CUser | CPass, CPass | CToken, CToken | CAccess, CAccess => true
+  | CKey x, CKey y => Nat.eqb x y
+  | _, _ => false
+  end.
+
+Definition has_cred (m : method) (c : cred) : bool := existsb (cred_eqb c) (m_creds m).
+Definition has_key_cred (m : method) : bool := existsb (fun c => match c with CKey _ => true | _ => false end) (m_creds m).
+
+Definition scheme_kind (d : design) (n : name) : option skind :=
+  match List.find (fun sc => Nat.eqb (sc_name sc) n) (d_schemes d) with Some sc => Some (sc_kind sc) | None => None end.
+
+(* the credential attributes one scheme of a requirement needs *)
+Definition needed (d : design) (n : name) : list cred :=
+  match scheme_kind d n with
+  | Some SBasic => [CUser; CPass]
+  | Some SAPIKey => [CKey n]
+  | Some SJWT => [CToken]
+  | Some SOAuth2 => [CAccess]
+  | None => []
+  end.
+
+Definition missing_err (c : cred) : err :=
+  match c with CUser => ENoUsername | CPass => ENoPassword | CKey _ => ENoAPIKey | CToken => ENoToken | CAccess => ENoAccessToken end.
+
+Definition uses_kind (d : design) (rs : list req) (k : skind) : bool :=
+  existsb (fun q => existsb (fun n => match scheme_kind d n with
+                                     | Some k' => match k, k' with
+                                                  | SBasic, SBasic | SAPIKey, SAPIKey | SJWT, SJWT | SOAuth2, SOAuth2 => true
+                                                  | _, _ => false end
+                                     | None => false end) (q_schemes q)) rs.
+
+(* MethodExpr.Validate, security part (expr/method.go:104-188): every scheme of every
+   effective requirement finds its credential attribute(s) in the payload - the API
+   key attribute of THAT scheme - and no credential attribute is left without a scheme
+   of its kind *)
+Definition validate_creds (d : design) (s : service) (m : method) : list err :=
+  let rs := effective_reqs d s m in
+  flat_map (fun q => flat_map (fun n => map missing_err (filter (fun c => negb (has_cred m c)) (needed d n))) (q_schemes q)) rs ++
+  (if uses_kind d rs SBasic then [] else
+     (if has_cred m CUser then [EStrayUsername] else []) ++ (if has_cred m CPass then [EStrayPassword] else [])) ++
+  (if uses_kind d rs SAPIKey then [] else if has_key_cred m then [EStrayAPIKey] else []) ++
+  (if uses_kind d rs SJWT then [] else if has_cred m CToken then [EStrayToken] else []) ++
+  (if uses_kind d rs SOAuth2 then [] else if has_cred m CAccess then [EStrayAccessToken] else []).
+
 Definition validate_method (d : design) (s : service) (m : method) : list err :=
+  validate_creds d s m ++
   flat_map (fun q => map EScope (filter (fun sc => negb (scope_known d q sc)) (q_scopes q))) (effective_reqs d s m) ++
   match r_fixed (m_result m), r_views (m_result m) with
   | Some v, Some vs => if Nat.eqb v default_view then [] else
@@ -457,7 +565,8 @@ Inductive ref :=
 | RScope (d : design) (q : req) (n : name)      (* requirement scope -> scope of one of its schemes *)
 | RView (m : method) (v : name)                 (* Result view -> view of the result type *)
 | RViewAttr (t : rtype) (n : name)              (* attribute listed in a view -> attribute of the result type *)
-| RRequired (g : graph) (nd : nat) (n : name).  (* Required name -> attribute Find can reach *)
+| RRequired (g : graph) (nd : nat) (n : name)   (* Required name -> attribute Find can reach *)
+| RCred (m : method) (c : cred).                (* scheme of an effective requirement -> its credential attribute in the payload *)
 
 Definition http_refs (d : design) (s : service) (m : method) (h : http) : list ref :=
   map (RPayload m) (h_path h ++ h_query h ++ h_headers h ++ h_cookies h) ++
@@ -483,6 +592,7 @@ Definition refs (d : design) : list ref :=
     flat_map (fun m =>
       flat_map (req_refs d) (m_reqs m) ++
       flat_map (fun q => map (RScope d q) (q_scopes q)) (effective_reqs d s m) ++
+      flat_map (fun q => flat_map (fun n => map (RCred m) (needed d n)) (q_schemes q)) (effective_reqs d s m) ++
       (match r_fixed (m_result m), r_views (m_result m) with Some v, Some _ => [RView m v] | _, _ => [] end) ++
       match m_http m with Some h => http_refs d s m h | None => [] end) (s_methods s)) (d_services d) ++
   flat_map (fun n => match get (d_graph d) n with
@@ -520,6 +630,7 @@ Definition resolves (r : ref) : Prop :=
                  match r_views (m_result m) with Some vs => exists w, In w vs /\ v_name w = v | None => False end
   | RViewAttr t n => In n (rt_attrs t)
   | RRequired g nd n => exists c, gfind g (find_fuel g) nd n = Some (Some c)
+  | RCred m c => In c (m_creds m)
   end.
 
 Definition is_tag (r : ref) : bool := match r with RTag _ _ => true | _ => false end.
@@ -545,17 +656,35 @@ Inductive fkind :=
 | KAny       (* no context check *)
 | KUnknown.  (* the translator did not recognise the function's shape *)
 
+(* data types an attribute context can have (the Type of the *AttributeExpr that
+   eval.Current() is, or that the composite expression wraps) *)
+Inductive dkind :=
+| DNil          (* no type yet (view / message / body DSLs start from an empty attribute) *)
+| DPrim | DAny | DArray | DMap | DObject | DUnion
+| DUser         (* a user type that is an object *)
+| DResultType   (* a result type that is an object *)
+| DCollection.  (* CollectionOf(result type): a result type that is an array *)
+
+(* tests a DSL function makes on that data type *)
+Inductive dguard :=
+| GExactObject | GExactUnion | GExactMap | GExactArray   (* x.Type.( *expr.Object ) ... *)
+| GExactUserType
+| GIsObject | GIsUnion | GIsMap | GIsArray | GIsPrimitive   (* expr.IsObject(x.Type) ...: see through user types *)
+| GOtherGuard.
+
 Record fentry := mkF {
   f_name : string;
   f_kind : fkind;
   f_nested : bool;     (* further checks inside an accepted context (no prediction there) *)
-  f_types : list etype
+  f_types : list etype;
+  f_dguard : list dguard   (* [] : the data type of the context attribute is not tested *)
 }.
 
 (* the contexts a design function can be in, as reachable through the public DSL *)
 Inductive ctx :=
 | CTop | CAPI | CServer | CHost | CService | CMethod
 | CPayloadObj | CAttrString | CAttrMap | CTypeBody | CResultType | CViewBody
+| CAttrArray | CAttrAny | CAttrUnion | CAttrUser | CAttrResultType | CAttrCollection | CResultUser | CBodyUser
 | CAPIHTTP | CHTTPService | CHTTPEndpoint | CHTTPResponse | CHTTPErrResponse | CParams | CFileServer
 | CAPIGRPC | CGRPCService | CGRPCEndpoint | CGRPCResponse
 | CScheme | CSecurity | CContact | CLicense | CDocs | CExample.
@@ -570,7 +699,8 @@ Definition ctx_types (c : ctx) : list etype :=
   | CHost => [THost; TComposite]
   | CService => [TService]
   | CMethod => [TMethod]
-  | CPayloadObj | CAttrString | CAttrMap | CTypeBody | CViewBody => [TAttribute]
+  | CPayloadObj | CAttrString | CAttrMap | CTypeBody | CViewBody
+  | CAttrArray | CAttrAny | CAttrUnion | CAttrUser | CAttrResultType | CAttrCollection | CResultUser | CBodyUser => [TAttribute]
   | CResultType => [TResultType; TComposite; TUserType]
   | CAPIHTTP => [TRoot]
   | CHTTPService => [THTTPService]
@@ -590,6 +720,44 @@ Definition ctx_types (c : ctx) : list etype :=
   | CExample => [TExample]
   end.
 
+(* data type of the attribute a context stands for (None: not an attribute context) *)
+Definition ctx_dtype (c : ctx) : option dkind :=
+  match c with
+  | CPayloadObj | CTypeBody => Some DObject
+  | CResultType | CHost | CParams => Some DObject      (* composite expressions: def.Attribute() is an object *)
+  | CAttrString => Some DPrim
+  | CAttrAny => Some DAny
+  | CAttrArray => Some DArray
+  | CAttrMap => Some DMap
+  | CAttrUnion => Some DUnion
+  | CAttrUser | CResultUser | CBodyUser => Some DUser
+  | CAttrResultType => Some DResultType
+  | CAttrCollection => Some DResultType   (* a collection becomes an array only when its own (generated) DSL runs, after the method DSLs *)
+  | CViewBody => Some DNil
+  | _ => None
+  end.
+
+Definition guard_accepts1 (gd : dguard) (d : dkind) : bool :=
+  match gd, d with
+  | GExactObject, DObject | GExactUnion, DUnion | GExactMap, DMap | GExactArray, DArray => true
+  | GExactUserType, (DUser | DResultType | DCollection) => true
+  | GIsObject, (DObject | DUser | DResultType) => true
+  | GIsUnion, DUnion => true
+  | GIsMap, DMap => true
+  | GIsArray, (DArray | DCollection) => true
+  | GIsPrimitive, (DPrim | DAny) => true
+  | GOtherGuard, _ => true
+  | _, _ => false
+  end.
+
+(* does the context attribute pass the function's data-type tests? An attribute with
+   no type yet is given one by the function (Attribute makes it an object). *)
+Definition dtype_ok (e : fentry) (c : ctx) : bool :=
+  match f_dguard e, ctx_dtype c with
+  | [], _ | _, None | _, Some DNil => true
+  | gs, Some d => existsb (fun gd => guard_accepts1 gd d) gs
+  end.
+
 Definition tmem (t : etype) (l : list etype) : bool := existsb (etype_eqb t) l.
 
 Definition allowed (e : fentry) (c : ctx) : bool :=
@@ -597,12 +765,13 @@ Definition allowed (e : fentry) (c : ctx) : bool :=
 
 Inductive dsl_err :=
 | Incompatible (f : string)      (* "invalid use of f" *)
+| BadDataType (f : string)       (* "can't define child attribute ...", "invalid use of Key" ...: the attribute's type is refused *)
 | UnknownEntry (f : string).
 
 (* the context check at the top of a DSL function, total over function x context *)
 Definition eval_call (c : ctx) (e : fentry) : list dsl_err :=
   match f_kind e with
-  | KStrict => if allowed e c then [] else [Incompatible (f_name e)]
+  | KStrict => if allowed e c then (if dtype_ok e c then [] else [BadDataType (f_name e)]) else [Incompatible (f_name e)]
   | KSilent | KAny => []
   | KUnknown => [UnknownEntry (f_name e)]
   end.
@@ -624,133 +793,134 @@ Definition run_program (p : program) (later : list err) : outcome :=
 
 (* ---- the documented context table ----
    What the doc comment of each DSL function says about where it may appear (dsl/*.go,
-   "X must appear in ..."), with the kind of check the function is expected to make.
-   [Lemmas.table_agrees] compares it, entry by entry, with the table extracted from the
-   working tree: a source change that moves, adds or removes an accepted context, or
-   turns a reporting check into a silent one, breaks that proof. *)
+   "X must appear in ..."), with the kind of check the function is expected to make
+   and the data types of attribute it works on. [Lemmas.table_agrees] compares it, entry
+   by entry, with the table extracted from the working tree: a source change that moves,
+   adds or removes an accepted context, turns a reporting check into a silent one, or
+   changes the test made on the attribute's data type, breaks that proof. *)
 Local Open Scope string_scope.
 Definition documented : list fentry := [
-  mkF "API" KStrict false [TTop];
-  mkF "APIKey" KStrict false [TAttribute; TComposite];
-  mkF "APIKeyField" KStrict false [TAttribute; TComposite];
-  mkF "APIKeySecurity" KStrict false [TTop];
-  mkF "AccessToken" KStrict false [TAttribute; TComposite];
-  mkF "AccessTokenField" KStrict false [TAttribute; TComposite];
-  mkF "ArrayOf" KAny false [];
-  mkF "Attribute" KStrict false [TAttribute; TComposite];
-  mkF "Attributes" KStrict false [TResultType];
-  mkF "AuthorizationCodeFlow" KStrict false [TScheme];
-  mkF "BasicAuthSecurity" KStrict false [TTop];
-  mkF "Body" KStrict true [THTTPEndpoint; THTTPError; THTTPResponse];
-  mkF "CONNECT" KStrict false [THTTPEndpoint];
-  mkF "CanonicalMethod" KStrict false [THTTPService];
-  mkF "ClientCredentialsFlow" KStrict false [TScheme];
-  mkF "Code" KStrict false [TGRPCResponse; THTTPResponse];
-  mkF "CollectionOf" KAny false [];
-  mkF "Consumes" KStrict false [TRoot];
-  mkF "Contact" KStrict false [TAPI];
-  mkF "ContentType" KStrict false [THTTPResponse; TResultType];
-  mkF "ConvertTo" KStrict false [TAttribute; TResultType];
-  mkF "Cookie" KStrict false [THTTPEndpoint; THTTPResponse; THTTPService; TMapped; TRoot];
-  mkF "CookieDomain" KStrict false [THTTPResponse];
-  mkF "CookieHTTPOnly" KStrict false [THTTPResponse];
-  mkF "CookieMaxAge" KStrict false [THTTPResponse];
-  mkF "CookiePath" KStrict false [THTTPResponse];
-  mkF "CookieSameSite" KStrict false [THTTPResponse];
-  mkF "CookieSecure" KStrict false [THTTPResponse];
-  mkF "CreateFrom" KStrict false [TAttribute; TResultType];
-  mkF "DELETE" KStrict false [THTTPEndpoint];
-  mkF "Default" KStrict false [TAttribute];
-  mkF "Deprecated" KStrict true [THTTPEndpoint];
-  mkF "Description" KStrict false [TAPI; TAttribute; TDocs; TExample; TGRPCResponse; THTTPFileServer; THTTPResponse; THost; TMethod; TResultType; TScheme; TServer; TService];
-  mkF "Docs" KStrict false [TAPI; TAttribute; THTTPFileServer; TMethod; TService];
-  mkF "Elem" KStrict true [TAttribute];
-  mkF "Email" KSilent false [TContact];
-  mkF "Enum" KSilent false [TAttribute];
-  mkF "Error" KStrict false [TAPI; TMethod; TService];
-  mkF "ErrorName" KStrict false [TAttribute; TComposite];
-  mkF "Example" KStrict false [TAttribute];
-  mkF "ExclusiveMaximum" KSilent false [TAttribute];
-  mkF "ExclusiveMinimum" KSilent false [TAttribute];
-  mkF "Extend" KStrict false [TAttribute; TResultType];
-  mkF "Fault" KStrict false [TAttribute];
-  mkF "Field" KStrict false [TAttribute; TComposite];
-  mkF "Files" KStrict false [TService];
-  mkF "Format" KSilent false [TAttribute];
-  mkF "GET" KStrict false [THTTPEndpoint];
-  mkF "GRPC" KStrict false [TAPI; TMethod; TService];
-  mkF "HEAD" KStrict false [THTTPEndpoint];
-  mkF "HTTP" KStrict false [TAPI; TMethod; TService];
-  mkF "Header" KStrict false [THTTPEndpoint; THTTPResponse; THTTPService; TMapped; TRoot];
-  mkF "Headers" KStrict true [TGRPCResponse; THTTPEndpoint; THTTPResponse; THTTPService; TMapped; TRoot];
-  mkF "Host" KStrict false [TServer];
-  mkF "ImplicitFlow" KStrict false [TScheme];
-  mkF "JWTSecurity" KStrict false [TTop];
-  mkF "Key" KStrict true [TAttribute];
-  mkF "License" KStrict false [TAPI];
-  mkF "MapOf" KAny false [];
-  mkF "MapParams" KStrict false [THTTPEndpoint];
-  mkF "MaxLength" KSilent false [TAttribute];
-  mkF "Maximum" KSilent false [TAttribute];
-  mkF "Message" KStrict false [TGRPCEndpoint; TGRPCError; TGRPCResponse];
-  mkF "Meta" KStrict false [TAPI; TAttribute; THTTPEndpoint; THTTPFileServer; THTTPResponse; THTTPService; THost; TMethod; TResultType; TRoute; TServer; TService; TComposite];
-  mkF "Metadata" KStrict false [TGRPCEndpoint];
-  mkF "Method" KStrict false [TService];
-  mkF "MinLength" KSilent false [TAttribute];
-  mkF "Minimum" KSilent false [TAttribute];
-  mkF "MultipartRequest" KStrict false [THTTPEndpoint];
-  mkF "Name" KStrict false [TContact; TLicense];
-  mkF "NoSecurity" KStrict false [TMethod];
-  mkF "OAuth2Security" KStrict false [TTop];
-  mkF "OPTIONS" KStrict false [THTTPEndpoint];
-  mkF "OneOf" KStrict false [TAttribute; TComposite];
-  mkF "PATCH" KStrict false [THTTPEndpoint];
-  mkF "POST" KStrict false [THTTPEndpoint];
-  mkF "PUT" KStrict false [THTTPEndpoint];
-  mkF "Package" KStrict false [TGRPCService];
-  mkF "Param" KStrict false [THTTPEndpoint; THTTPService; TMapped; TRoot];
-  mkF "Params" KStrict false [THTTPEndpoint; THTTPService; TMapped; TRoot];
-  mkF "Parent" KStrict false [THTTPService];
-  mkF "Password" KStrict false [TAttribute; TComposite];
-  mkF "PasswordField" KStrict false [TAttribute; TComposite];
-  mkF "PasswordFlow" KStrict false [TScheme];
-  mkF "Path" KStrict false [THTTPService; TRoot];
-  mkF "Pattern" KSilent false [TAttribute];
-  mkF "Payload" KStrict false [TMethod];
-  mkF "Produces" KStrict false [TRoot];
-  mkF "Randomizer" KStrict false [TAPI];
-  mkF "Redirect" KStrict false [THTTPEndpoint; THTTPFileServer];
-  mkF "Reference" KStrict false [TAttribute; TResultType];
-  mkF "Required" KStrict false [TAttribute; TMapped; TResultType];
-  mkF "Response" KStrict false [TGRPCEndpoint; TGRPC; TGRPCService; THTTPEndpoint; THTTP; THTTPService; TRoot];
-  mkF "Result" KStrict false [TMethod];
-  mkF "ResultType" KStrict false [TTop];
-  mkF "Scope" KStrict false [TScheme; TSecurity];
-  mkF "Security" KStrict false [TAPI; TMethod; TService];
-  mkF "Server" KStrict false [TAPI];
-  mkF "Service" KStrict false [TTop];
-  mkF "Services" KStrict false [TServer];
-  mkF "SkipRequestBodyEncodeDecode" KStrict false [THTTPEndpoint];
-  mkF "SkipResponseBodyEncodeDecode" KStrict false [THTTPEndpoint];
-  mkF "StreamingPayload" KStrict false [TMethod];
-  mkF "StreamingResult" KStrict false [TMethod];
-  mkF "TRACE" KStrict false [THTTPEndpoint];
-  mkF "Tag" KStrict false [THTTPResponse];
-  mkF "Temporary" KStrict false [TAttribute];
-  mkF "TermsOfService" KStrict false [TAPI];
-  mkF "Timeout" KStrict false [TAttribute];
-  mkF "Title" KStrict false [TAPI];
-  mkF "Token" KStrict false [TAttribute; TComposite];
-  mkF "TokenField" KStrict false [TAttribute; TComposite];
-  mkF "Trailers" KStrict false [TGRPCResponse];
-  mkF "Type" KStrict false [TTop];
-  mkF "TypeName" KStrict false [TAttribute; TUserType];
-  mkF "URI" KStrict false [THost];
-  mkF "URL" KStrict false [TContact; TDocs; TLicense];
-  mkF "Username" KStrict false [TAttribute; TComposite];
-  mkF "UsernameField" KStrict false [TAttribute; TComposite];
-  mkF "Value" KStrict false [TExample];
-  mkF "Variable" KStrict true [THost];
-  mkF "Version" KStrict false [TAPI];
-  mkF "View" KStrict true [TAttribute; TResultType]
+  mkF "API" KStrict false [TTop] [];
+  mkF "APIKey" KStrict false [TAttribute; TComposite] [GExactObject; GExactUnion];
+  mkF "APIKeyField" KStrict false [TAttribute; TComposite] [GExactObject; GExactUnion];
+  mkF "APIKeySecurity" KStrict false [TTop] [];
+  mkF "AccessToken" KStrict false [TAttribute; TComposite] [GExactObject; GExactUnion];
+  mkF "AccessTokenField" KStrict false [TAttribute; TComposite] [GExactObject; GExactUnion];
+  mkF "ArrayOf" KAny false [] [];
+  mkF "Attribute" KStrict false [TAttribute; TComposite] [GExactObject; GExactUnion];
+  mkF "Attributes" KStrict false [TResultType] [];
+  mkF "AuthorizationCodeFlow" KStrict false [TScheme] [];
+  mkF "BasicAuthSecurity" KStrict false [TTop] [];
+  mkF "Body" KStrict true [THTTPEndpoint; THTTPError; THTTPResponse] [];
+  mkF "CONNECT" KStrict false [THTTPEndpoint] [];
+  mkF "CanonicalMethod" KStrict false [THTTPService] [];
+  mkF "ClientCredentialsFlow" KStrict false [TScheme] [];
+  mkF "Code" KStrict false [TGRPCResponse; THTTPResponse] [];
+  mkF "CollectionOf" KAny false [] [];
+  mkF "Consumes" KStrict false [TRoot] [];
+  mkF "Contact" KStrict false [TAPI] [];
+  mkF "ContentType" KStrict false [THTTPResponse; TResultType] [];
+  mkF "ConvertTo" KStrict false [TAttribute; TResultType] [];
+  mkF "Cookie" KStrict false [THTTPEndpoint; THTTPResponse; THTTPService; TMapped; TRoot] [];
+  mkF "CookieDomain" KStrict false [THTTPResponse] [];
+  mkF "CookieHTTPOnly" KStrict false [THTTPResponse] [];
+  mkF "CookieMaxAge" KStrict false [THTTPResponse] [];
+  mkF "CookiePath" KStrict false [THTTPResponse] [];
+  mkF "CookieSameSite" KStrict false [THTTPResponse] [];
+  mkF "CookieSecure" KStrict false [THTTPResponse] [];
+  mkF "CreateFrom" KStrict false [TAttribute; TResultType] [];
+  mkF "DELETE" KStrict false [THTTPEndpoint] [];
+  mkF "Default" KStrict false [TAttribute] [];
+  mkF "Deprecated" KStrict true [THTTPEndpoint] [];
+  mkF "Description" KStrict false [TAPI; TAttribute; TDocs; TExample; TGRPCResponse; THTTPFileServer; THTTPResponse; THost; TMethod; TResultType; TScheme; TServer; TService] [];
+  mkF "Docs" KStrict false [TAPI; TAttribute; THTTPFileServer; TMethod; TService] [];
+  mkF "Elem" KStrict true [TAttribute] [GExactArray; GExactMap];
+  mkF "Email" KSilent false [TContact] [];
+  mkF "Enum" KSilent false [TAttribute] [];
+  mkF "Error" KStrict false [TAPI; TMethod; TService] [];
+  mkF "ErrorName" KStrict false [TAttribute; TComposite] [GExactObject; GExactUnion];
+  mkF "Example" KStrict false [TAttribute] [];
+  mkF "ExclusiveMaximum" KSilent false [TAttribute] [];
+  mkF "ExclusiveMinimum" KSilent false [TAttribute] [];
+  mkF "Extend" KStrict false [TAttribute; TResultType] [];
+  mkF "Fault" KStrict false [TAttribute] [];
+  mkF "Field" KStrict false [TAttribute; TComposite] [GExactObject; GExactUnion];
+  mkF "Files" KStrict false [TService] [];
+  mkF "Format" KSilent false [TAttribute] [];
+  mkF "GET" KStrict false [THTTPEndpoint] [];
+  mkF "GRPC" KStrict false [TAPI; TMethod; TService] [];
+  mkF "HEAD" KStrict false [THTTPEndpoint] [];
+  mkF "HTTP" KStrict false [TAPI; TMethod; TService] [];
+  mkF "Header" KStrict false [THTTPEndpoint; THTTPResponse; THTTPService; TMapped; TRoot] [];
+  mkF "Headers" KStrict true [TGRPCResponse; THTTPEndpoint; THTTPResponse; THTTPService; TMapped; TRoot] [];
+  mkF "Host" KStrict false [TServer] [];
+  mkF "ImplicitFlow" KStrict false [TScheme] [];
+  mkF "JWTSecurity" KStrict false [TTop] [];
+  mkF "Key" KStrict true [TAttribute] [GExactMap];
+  mkF "License" KStrict false [TAPI] [];
+  mkF "MapOf" KAny false [] [];
+  mkF "MapParams" KStrict false [THTTPEndpoint] [];
+  mkF "MaxLength" KSilent false [TAttribute] [];
+  mkF "Maximum" KSilent false [TAttribute] [];
+  mkF "Message" KStrict false [TGRPCEndpoint; TGRPCError; TGRPCResponse] [];
+  mkF "Meta" KStrict false [TAPI; TAttribute; THTTPEndpoint; THTTPFileServer; THTTPResponse; THTTPService; THost; TMethod; TResultType; TRoute; TServer; TService; TComposite] [];
+  mkF "Metadata" KStrict false [TGRPCEndpoint] [];
+  mkF "Method" KStrict false [TService] [];
+  mkF "MinLength" KSilent false [TAttribute] [];
+  mkF "Minimum" KSilent false [TAttribute] [];
+  mkF "MultipartRequest" KStrict false [THTTPEndpoint] [];
+  mkF "Name" KStrict false [TContact; TLicense] [];
+  mkF "NoSecurity" KStrict false [TMethod] [];
+  mkF "OAuth2Security" KStrict false [TTop] [];
+  mkF "OPTIONS" KStrict false [THTTPEndpoint] [];
+  mkF "OneOf" KStrict false [TAttribute; TComposite] [GExactObject; GExactUnion];
+  mkF "PATCH" KStrict false [THTTPEndpoint] [];
+  mkF "POST" KStrict false [THTTPEndpoint] [];
+  mkF "PUT" KStrict false [THTTPEndpoint] [];
+  mkF "Package" KStrict false [TGRPCService] [];
+  mkF "Param" KStrict false [THTTPEndpoint; THTTPService; TMapped; TRoot] [];
+  mkF "Params" KStrict false [THTTPEndpoint; THTTPService; TMapped; TRoot] [];
+  mkF "Parent" KStrict false [THTTPService] [];
+  mkF "Password" KStrict false [TAttribute; TComposite] [GExactObject; GExactUnion];
+  mkF "PasswordField" KStrict false [TAttribute; TComposite] [GExactObject; GExactUnion];
+  mkF "PasswordFlow" KStrict false [TScheme] [];
+  mkF "Path" KStrict false [THTTPService; TRoot] [];
+  mkF "Pattern" KSilent false [TAttribute] [];
+  mkF "Payload" KStrict false [TMethod] [];
+  mkF "Produces" KStrict false [TRoot] [];
+  mkF "Randomizer" KStrict false [TAPI] [];
+  mkF "Redirect" KStrict false [THTTPEndpoint; THTTPFileServer] [];
+  mkF "Reference" KStrict false [TAttribute; TResultType] [];
+  mkF "Required" KStrict false [TAttribute; TMapped; TResultType] [GExactUserType; GIsObject];
+  mkF "Response" KStrict false [TGRPCEndpoint; TGRPC; TGRPCService; THTTPEndpoint; THTTP; THTTPService; TRoot] [];
+  mkF "Result" KStrict false [TMethod] [];
+  mkF "ResultType" KStrict false [TTop] [];
+  mkF "Scope" KStrict false [TScheme; TSecurity] [];
+  mkF "Security" KStrict false [TAPI; TMethod; TService] [];
+  mkF "Server" KStrict false [TAPI] [];
+  mkF "Service" KStrict false [TTop] [];
+  mkF "Services" KStrict false [TServer] [];
+  mkF "SkipRequestBodyEncodeDecode" KStrict false [THTTPEndpoint] [];
+  mkF "SkipResponseBodyEncodeDecode" KStrict false [THTTPEndpoint] [];
+  mkF "StreamingPayload" KStrict false [TMethod] [];
+  mkF "StreamingResult" KStrict false [TMethod] [];
+  mkF "TRACE" KStrict false [THTTPEndpoint] [];
+  mkF "Tag" KStrict false [THTTPResponse] [];
+  mkF "Temporary" KStrict false [TAttribute] [];
+  mkF "TermsOfService" KStrict false [TAPI] [];
+  mkF "Timeout" KStrict false [TAttribute] [];
+  mkF "Title" KStrict false [TAPI] [];
+  mkF "Token" KStrict false [TAttribute; TComposite] [GExactObject; GExactUnion];
+  mkF "TokenField" KStrict false [TAttribute; TComposite] [GExactObject; GExactUnion];
+  mkF "Trailers" KStrict false [TGRPCResponse] [];
+  mkF "Type" KStrict false [TTop] [];
+  mkF "TypeName" KStrict false [TAttribute; TUserType] [];
+  mkF "URI" KStrict false [THost] [];
+  mkF "URL" KStrict false [TContact; TDocs; TLicense] [];
+  mkF "Username" KStrict false [TAttribute; TComposite] [GExactObject; GExactUnion];
+  mkF "UsernameField" KStrict false [TAttribute; TComposite] [GExactObject; GExactUnion];
+  mkF "Value" KStrict false [TExample] [];
+  mkF "Variable" KStrict true [THost] [GExactObject; GExactUnion];
+  mkF "Version" KStrict false [TAPI] [];
+  mkF "View" KStrict true [TAttribute; TResultType] []
 ].
